@@ -615,6 +615,9 @@ def _propagates(body):
     return False
 
 
+_PRIMS = {"usize", "u8", "u16", "u32", "u64", "u128", "isize", "i8", "i16", "i32", "i64", "i128", "bool", "()", "char"}
+
+
 def _peel_pat(p):
     while p.get("k") in ("Deref", "DerefPattern", "AscribeUserType") and p.get("sub"):
         p = p["sub"]
@@ -718,8 +721,8 @@ def _result_matches(F, R, dec):
                         if et is not None:
                             sites.append(("let-else", et, [(st["pat"], {"k": "Tuple", "items": []}), ({"k": "Wild"}, st["else"])], st["init"]))
             for kind, et, arms, scrut in sites:
-                if not (et in IO_CARRYING or "::" not in et or et.startswith("<")):
-                    continue      # error of a pure computation (Utf8Error, TryFromIntError, ..)
+                if not (et in IO_CARRYING or "::" not in et or et.startswith("<")) or et in _PRIMS:
+                    continue      # error of a pure computation (Utf8Error, TryFromIntError, a binary search's insertion index ..)
                 seen += 1
                 if root in MATCH_EXEMPT or root.endswith("::poll"):
                     continue      # evaluated as a whole by H-block / P-header / P-body
